@@ -68,7 +68,8 @@ def gen_spec(rng, kind=None):
                 n_workers=rng.randint(1, 4), delete_checkpoints=rng.random() < 0.7,
                 max_steps=rng.choice([1, 2, 3, 3]), polls=rng.randint(4, 22),
                 flavour=rng.choice(["plain", "ties", "trend"]), mode=rng.choice(["min", "max"]),
-                use_max_resource_attr=rng.random() < 0.5, remove_callback=False, speculative=None, plan=None)
+                use_max_resource_attr=rng.random() < 0.5, remove_callback=False, speculative=None, plan=None,
+                fail_den=rng.choice([None, None, 6, 12, 25]))
     if kind in HB_KINDS:
         # PASHA supports a single bracket only (hyperband_pasha.py raises IndexError with 2: outside this property)
         spec.update(max_t=rng.choice([9, 9, 27, 8]), rf=rng.choice([2, 3]),
@@ -155,7 +156,8 @@ def run_case(spec):
         cbs.append(RemoveCheckpointsCallback())
     tuner = Tuner(trial_backend=be, scheduler=sch, stop_criterion=lambda st: be.polls >= spec["polls"],
                   n_workers=spec["n_workers"], sleep_time=0, callbacks=cbs, save_tuner=False,
-                  tuner_name="c20", suffix_tuner_name=False, results_update_interval=1e9, print_update_interval=1e9)
+                  tuner_name="c20", suffix_tuner_name=False, results_update_interval=1e9, print_update_interval=1e9,
+                  max_failures=10 ** 6)
     crash = None
     with contextlib.redirect_stdout(io.StringIO()), \
             mock.patch("syne_tune.callbacks.hyperband_remove_checkpoints_callback.time", _FakeTime(be)):
@@ -183,10 +185,21 @@ def check_log(spec, log):
     never_again = {}     # trial -> index: removed as "can never be resumed"
     ended = False
     last_poll = -1
+    in_loop_end = False   # callbacks' on_loop_end phase: the only place where callback deletions belong
     for k, e in enumerate(log):
         tag = e[0]
+        if tag == "loop_end":
+            in_loop_end = True
+        elif tag in ("loop_start", "tuning_end"):
+            in_loop_end = False
         if tag == "poll":
             last_poll = k
+            for t in e[3]:
+                if state.get(t) == "running":
+                    state[t] = "failed"
+            for t in e[2]:
+                if state.get(t) == "running":
+                    state[t] = "completed"
         elif tag == "decision":
             if e[2] == "STOP":
                 sched_stop[e[1]] = k
@@ -245,9 +258,16 @@ def check_log(spec, log):
             if i in sched_stop and state.get(i) == "stopped":
                 stats["stop_deletes"] += 1
                 deleted[i] = (ctx, k)
+            elif ctx == "callback" and not in_loop_end:
+                # neither stop_trial, nor stop_all, nor a callback's on_loop_end: nobody may delete here
+                viol.append(("delete_checkpoint(%d) called outside stop_trial / stop_all / on_loop_end while the trial is %s "
+                             "(not stopped by the scheduler, tuning not over)" % (i, state.get(i)),
+                             dict(scheduler=kind.upper(), event="delete_not_allowed", delete_context="tuner",
+                                  trial_state=str(state.get(i)))))
+                deleted[i] = ("tuner", k)
             elif ctx == "callback" and spec.get("speculative") and state.get(i) == "paused":
                 deleted[i] = ("speculative", k)
-            elif ctx == "callback" and spec.get("remove_callback") and state.get(i) == "paused":
+            elif ctx == "callback" and spec.get("remove_callback") and state.get(i) in ("paused", "failed"):
                 # allowed iff the trial can never be resumed: checked on the rest of the run
                 stats["removable"] += 1
                 never_again[i] = k
@@ -281,11 +301,11 @@ def split_iterations(log):
         elif tag == "loop_start":
             if cur is not None:
                 its.append(cur)
-            cur = dict(ids=[], completed=[], decisions=[], body=[], cb=[], ended=False)
+            cur = dict(ids=[], completed=[], failed=[], decisions=[], body=[], cb=[], ended=False)
         elif cur is None:
             continue
         elif tag == "poll":
-            cur["ids"], cur["completed"] = list(e[1]), list(e[2])
+            cur["ids"], cur["completed"], cur["failed"] = list(e[1]), list(e[2]), list(e[3])
         elif tag == "loop_end":
             cur["ended"] = True
         elif tag == "delete" and cur["ended"]:
@@ -352,9 +372,10 @@ def pair_reports(it):
     return out
 
 
-def iter_term(reports, completed, sugg, spec_choice):
-    return "{| reports := %s; completed := %s; sugg := %s; spec_choice := %s |}" % (
-        lst(reports), lst([zl(i) for i in completed]), lst(sugg), lst([zl(i) for i in spec_choice]))
+def iter_term(reports, completed, sugg, spec_choice, failed=()):
+    return "{| reports := %s; completed := %s; failed := %s; sugg := %s; spec_choice := %s |}" % (
+        lst(reports), lst([zl(i) for i in completed]), lst([zl(i) for i in failed]), lst(sugg),
+        lst([zl(i) for i in spec_choice]))
 
 
 def model_cases(spec, log, extra):
@@ -375,7 +396,7 @@ def model_cases(spec, log, extra):
             elif e[0] == "resume":
                 sg.append("(SResume %s)" % zl(e[1]))
         is_spec = bool(spec.get("speculative"))
-        o_its.append(iter_term(reps, it["completed"], sg, it["cb"] if is_spec else []))
+        o_its.append(iter_term(reps, it["completed"], sg, it["cb"] if is_spec else [], it["failed"]))
         rm_stream.append(lst([zl(i) for i in ([] if is_spec else it["cb"])]))
     out["oracle"] = "(%s, %s, %s, %s)" % (cf, lst(rm_stream), lst(o_its), impl)
     # ---- layer 2 -------------------------------------------------------------------
@@ -389,7 +410,7 @@ def model_cases(spec, log, extra):
                     sg.append("None")
                 elif e[0] == "resume":
                     sg.append("(Some %s)" % zl(e[1]))
-            p_its.append(iter_term(reps, it["completed"], sg, it["cb"]))
+            p_its.append(iter_term(reps, it["completed"], sg, it["cb"], it["failed"]))
         out["promo"] = "(%s, %s, %s)" % (cf, lst(p_its), impl)
     elif kind == "sync":
         s_its = []
@@ -400,7 +421,7 @@ def model_cases(spec, log, extra):
                 m = metric_value(spec, t, ep) if d else 0.0
                 reps.append("(%s, (%s, %s))" % (zl(t), q(m), zl(ep)))
             n_sg = sum(1 for e in it["body"] if e[0] in ("start", "resume"))
-            s_its.append(iter_term(reps, it["completed"], ["tt"] * n_sg, []))
+            s_its.append(iter_term(reps, it["completed"], ["tt"] * n_sg, [], it["failed"]))
         tbl = lst([lst(["(%s, %s)" % (natlit(s), zl(l)) for s, l in rungs]) for rungs in extra["tbl"]])
         out["sync"] = "(%s, %s, %s, %s, %s)" % (cf, tbl, blit(spec["mode"] == "max"), lst(s_its), impl)
     elif kind == "pbt":
@@ -426,7 +447,7 @@ def model_cases(spec, log, extra):
                 ep = d[3] if d else 0
                 m = metric_value(spec, t, ep) if d else 0.0
                 reps.append("(%s, (%s, %s, %s))" % (zl(t), q(ep), q(sign * m), zl(choice.get(id(d), 0) if d else 0)))
-            b_its.append(iter_term(reps, it["completed"], [zl(j) for j in redraw], []))
+            b_its.append(iter_term(reps, it["completed"], [zl(j) for j in redraw], [], it["failed"]))
         prm = "{| pp_max_t := %s; pp_interval := %s; pp_qf := %s |}" % (q(spec["max_t"]), q(spec["interval"]), q(spec["qf"]))
         out["pbt"] = "(%s, %s, %s, %s, %s)" % (cf, blit(extra["pbt_fixed"]), prm, lst(b_its), impl)
     return out
@@ -501,6 +522,8 @@ def run(ctx, replay=None):
         ctx.h("callback", spec.get("speculative") or ("RemoveCheckpointsCallback" if spec.get("remove_callback") else "none"))
         for k in ("deletes", "stop_deletes", "removable", "resumes", "clones", "spec_resume_no_ckpt"):
             ctx.h("events", k, stats[k])
+        ctx.h("failures", "jobs_failed", sum(len(e[3]) for e in log if e[0] == "poll"))
+        ctx.h("failures", "failed_in_poll_with_own_report", sum(1 for e in log if e[0] == "poll" for t in e[3] if t in e[1]))
         ctx.h("polls_with_2plus_trials", sum(1 for e in log if e[0] == "poll" and len(set(e[1])) >= 2) > 0)
         if spec["kind"] == "pbt":
             ctx.h("pbt", "clone_source_redrawn",
